@@ -46,5 +46,5 @@ def run(ctx):
                          extra_pre=['prim == %d' % i],
                          bound='one fault at %s x realistic OSError kinds %r x {pickle present/absent, current/stale} x '
                                '{clean-up due or not} x 2 parse modes' % (prim, cachew.REALISTIC[prim]),
-                         symbolic='error kind, flags, mode'))
+                         symbolic='error kind, flags, mode, default-vs-explicit cache location'))
     xh.run_conditions(ctx, C)
